@@ -2,7 +2,8 @@
   Helper lemmas for C06 (no property statements here): the command subset of the layout theorems.
   It is C05's covered subset (`Covered`, `cmd_span`: notes, `r ^ l o < > Q q C s &`) widened by
   the event commands of `mml_control` / `mml_envelope` that are one character and an optional /
-  mandatory / absent number: `[ L`, `] ( )`, `* @ v p K E M P G t T`, and `D` (drum mode).
+  mandatory / absent number: `[ L`, `] ( )`, `* @ v p K E M P G t T`, the transposes `_n __n kn`, `%n`,
+  and `D` (drum mode).
   For these, `mml_basic` declines (puts the character back), and `mml_control` or `mml_envelope`
   consumes exactly the spelling.  Interface: `LCovered`, `lcmdTrack`, `LCmdNums`, `LCmdTail`,
   `lcmdSkip`, `lcmd_step` (one iteration of `parse_mml_track`).
@@ -339,6 +340,72 @@ theorem volrel_span_none (s : MmlState) (hs : Sane s) (C : Nat) (sg : Int) (hC :
     rw [this]
     finish
 
+/-- `mml_transpose` behind `_` or `k`, on a number: `get_token`, put back, `expect_signed` -/
+theorem mmlTranspose_num (s : MmlState) (hs : Sane s) (n : Num) (tail : List Nat)
+    (hsuf : suffix s = n.bytes ++ tail) (hr : NumRange n) (hend : NumEnd (numBase n) tail) :
+    mmlTranspose s = .ok () (adv (setTrack s ((getTrack s).addEvent ev_TRANSPOSE n.v 0 0)) n.bytes.length) := by
+  obtain ⟨c0, r0, hcr, hc0⟩ := num_bytes_head n
+  have hsuf' : suffix s = c0 :: (r0 ++ tail) := by rw [hsuf, hcr]; rfl
+  have hrg : 33 ≤ c0 ∧ c0 < 128 := by omega
+  have e95 := ne_lit c0 95 (by omega) 95 rfl
+  have e123 := ne_lit c0 123 (by omega) 123 rfl
+  unfold mmlTranspose
+  rw [bind_ok (getTokenC_cons s c0 _ hsuf' hrg)]
+  simp only [e95, e123, Bool.false_eq_true, if_false]
+  rw [bind_ok (ungetC_zero s)]
+  unfold expectSigned
+  rw [bind_ok (expectParameter_render s hs n tail hsuf hr hend)]
+  rw [trackOp_ok _ _ _ "" rfl]
+  finish
+
+/-- `mml_envelope`: `_n` and `kn` -/
+theorem transpose_span (s : MmlState) (hs : Sane s) (C : Nat) (hC : C = 95 ∨ C = 107) (n : Num) (tail : List Nat)
+    (hsuf : suffix s = C :: (n.bytes ++ tail)) (hr : NumRange n) (hend : NumEnd (numBase n) tail) :
+    mmlEnvelope s = .ok false (adv (setTrack s ((getTrack s).addEvent ev_TRANSPOSE n.v 0 0)) (1 + n.bytes.length)) := by
+  have hs1 : Sane (adv s 1) := sane_adv s hs 1 (by rw [hsuf]; simp)
+  have hsuf1 : suffix (adv s 1) = n.bytes ++ tail := by rw [suffix_adv, hsuf]; rfl
+  have ht := mmlTranspose_num (adv s 1) hs1 n tail hsuf1 hr hend
+  rcases hC with rfl | rfl
+  · unfold mmlEnvelope
+    rw [bind_ok (getTokenC_cons s 95 _ hsuf (by omega))]
+    dispatch 95
+    rw [bind_ok ht, run_pure]
+    finish
+  · unfold mmlEnvelope
+    rw [bind_ok (getTokenC_cons s 107 _ hsuf (by omega))]
+    dispatch 107
+    rw [bind_ok ht, run_pure]
+    finish
+
+/-- `mml_transpose` behind `_`, on `_n` -/
+theorem mmlTranspose_rel (s : MmlState) (hs : Sane s) (n : Num) (tail : List Nat)
+    (hsuf : suffix s = 95 :: (n.bytes ++ tail)) (hr : NumRange n) (hend : NumEnd (numBase n) tail) :
+    mmlTranspose s = .ok () (adv (setTrack s ((getTrack s).addEvent ev_TRANSPOSE_REL n.v 0 0)) (1 + n.bytes.length)) := by
+  have hs1 : Sane (adv s 1) := sane_adv s hs 1 (by rw [hsuf]; simp)
+  have hsuf1 : suffix (adv s 1) = n.bytes ++ tail := by rw [suffix_adv, hsuf]; rfl
+  unfold mmlTranspose
+  rw [bind_ok (getTokenC_cons s 95 _ hsuf (by omega))]
+  dispatch 95
+  unfold expectSigned
+  rw [bind_ok (expectParameter_render _ hs1 n tail hsuf1 hr hend)]
+  rw [trackOp_ok _ _ _ "" rfl]
+  finish
+
+/-- `mml_envelope`: `__n` -/
+theorem transposeRel_span (s : MmlState) (hs : Sane s) (n : Num) (tail : List Nat)
+    (hsuf : suffix s = 95 :: 95 :: (n.bytes ++ tail)) (hr : NumRange n) (hend : NumEnd (numBase n) tail) :
+    mmlEnvelope s = .ok false (adv (setTrack s ((getTrack s).addEvent ev_TRANSPOSE_REL n.v 0 0)) (2 + n.bytes.length)) := by
+  have hs1 : Sane (adv s 1) := sane_adv s hs 1 (by rw [hsuf]; simp)
+  have hsuf1 : suffix (adv s 1) = 95 :: (n.bytes ++ tail) := by rw [suffix_adv, hsuf]; rfl
+  have ht := mmlTranspose_rel (adv s 1) hs1 n tail hsuf1 hr hend
+  unfold mmlEnvelope
+  rw [bind_ok (getTokenC_cons s 95 _ hsuf (by omega))]
+  dispatch 95
+  rw [bind_ok ht, run_pure]
+  simp only [getTrack_adv, setTrack_adv, adv_adv]
+  have : 1 + (1 + n.bytes.length) = 2 + n.bytes.length := by omega
+  rw [this]
+
 /-! ### one iteration for an event command -/
 
 theorem lstep_control (f : Nat) (s : MmlState) (hs : Sane s) (C : Nat) (r : List Nat) (hsuf : suffix s = C :: r)
@@ -357,7 +424,7 @@ theorem lstep_control (f : Nat) (s : MmlState) (hs : Sane s) (C : Nat) (r : List
   rw [this, ht1]
 
 theorem lstep_envelope (f : Nat) (s : MmlState) (hs : Sane s) (C : Nat) (r : List Nat) (hsuf : suffix s = C :: r)
-    (hC : C = 40 ∨ C = 41 ∨ C = 64 ∨ C = 68 ∨ C = 69 ∨ C = 71 ∨ C = 75 ∨ C = 77 ∨ C = 80 ∨ C = 84 ∨ C = 112 ∨ C = 116 ∨ C = 118)
+    (hC : C = 40 ∨ C = 41 ∨ C = 64 ∨ C = 68 ∨ C = 69 ∨ C = 71 ∨ C = 75 ∨ C = 77 ∨ C = 80 ∨ C = 84 ∨ C = 112 ∨ C = 116 ∨ C = 118 ∨ C = 95 ∨ C = 107)
     (F : Track → Track) (k : Nat)
     (hspan : ∀ s0, Sane s0 → suffix s0 = C :: r → mmlEnvelope s0 = .ok false (adv (setTrack s0 (F (getTrack s0))) k)) :
     parseMmlTrackF (f + 1) s =
@@ -398,6 +465,10 @@ def evClass : Simple → Option EvClass
   | .porta => some (.num 71 ev_PORTAMENTO)
   | .tempoBpm => some (.num 116 ev_TEMPO_BPM)
   | .tempo => some (.num 84 ev_TEMPO)
+  | .transpose => some (.num 95 ev_TRANSPOSE)
+  | .transposeRel => some (.num 95 ev_TRANSPOSE_REL)
+  | .kTranspose => some (.num 107 ev_TRANSPOSE)
+  | .platform => some (.num 37 ev_PLATFORM)
   | _ => none
 
 /-- an event command is covered when its number is present / absent as its class demands -/
@@ -408,7 +479,7 @@ def covSimple : Option EvClass → Option Num → Prop
   | _, _ => False
 
 /-- the commands the layout theorems cover: C05's subset, `D n`, and the event commands
-`[ L` (no number), `] ( )` (optional number), `* @ v p K E M P G t T` (mandatory number) -/
+`[ L` (no number), `] ( )` (optional number), `* @ v p K E M P G t T _ __ k %` (mandatory number) -/
 def LCovered : Cmd → Prop
   | .simple s n => covSimple (evClass s) n
   | .drum _ => True
@@ -457,7 +528,7 @@ def lcmdSkip : Cmd → List Nat → Nat
 /-- first bytes of the covered commands -/
 def LCmdStart (c : Nat) : Prop :=
   CmdStart c ∨ c = 91 ∨ c = 76 ∨ c = 93 ∨ c = 40 ∨ c = 41 ∨ c = 42 ∨ c = 64 ∨ c = 118 ∨ c = 112 ∨ c = 75 ∨ c = 69 ∨ c = 77 ∨ c = 80 ∨
-  c = 71 ∨ c = 116 ∨ c = 84 ∨ c = 68
+  c = 71 ∨ c = 116 ∨ c = 84 ∨ c = 68 ∨ c = 95 ∨ c = 107 ∨ c = 37
 
 theorem lcovered_of_covered (c : Cmd) (h : Covered c) : LCovered c := by
   cases c <;> first | exact h | exact absurd h (by simp [Covered])
@@ -561,7 +632,7 @@ theorem simple_num_step (f : Nat) (s : MmlState) (hs : Sane s) (C ty : Nat)
   rcases hC with ⟨rfl, rfl⟩ | hC
   · exact lstep_control f s hs 42 _ hsuf (by omega) (fun t => t.addEvent ev_JUMP n.v 0 0) _
       (fun s0 hs0 hsuf0 => call_span s0 hs0 n tail hsuf0 hr hend)
-  · have hCs : C = 40 ∨ C = 41 ∨ C = 64 ∨ C = 68 ∨ C = 69 ∨ C = 71 ∨ C = 75 ∨ C = 77 ∨ C = 80 ∨ C = 84 ∨ C = 112 ∨ C = 116 ∨ C = 118 := by omega
+  · have hCs : C = 40 ∨ C = 41 ∨ C = 64 ∨ C = 68 ∨ C = 69 ∨ C = 71 ∨ C = 75 ∨ C = 77 ∨ C = 80 ∨ C = 84 ∨ C = 112 ∨ C = 116 ∨ C = 118 ∨ C = 95 ∨ C = 107 := by omega
     exact lstep_envelope f s hs C _ hsuf hCs (fun t => t.addEvent ty n.v 0 0) _
       (fun s0 hs0 hsuf0 => envelope_num_span s0 hs0 C ty hC n tail hsuf0 hr hend)
 
@@ -603,6 +674,34 @@ theorem simple_opt_none_step (f : Nat) (s : MmlState) (hs : Sane s) (C ty : Nat)
       (fun s0 hs0 hsuf0 => volrel_span_none s0 hs0 40 (-1) (Or.inl ⟨rfl, rfl⟩) tail hsuf0 hnone)
   · exact lstep_envelope f s hs 41 _ hsuf (by omega) (fun t => t.addEvent ev_VOL_REL (1 * mmlDefaultVolStep) 0 0) _
       (fun s0 hs0 hsuf0 => volrel_span_none s0 hs0 41 1 (Or.inr ⟨rfl, rfl⟩) tail hsuf0 hnone)
+
+/-- `%n` is handled by `parse_mml_track` itself: reference, `get`, `expect_parameter`, PLATFORM event -/
+theorem platform_step (f : Nat) (s : MmlState) (hs : Sane s) (n : Num) (tail : List Nat)
+    (hsuf : suffix s = 37 :: (n.bytes ++ tail)) (hr : NumRange n) (hend : NumEnd (numBase n) tail) :
+    parseMmlTrackF (f + 1) s =
+      parseMmlTrackF f (adv (setTrack s (((getTrack s).setReference (some { line := s.inp.line, column := s.inp.lb.column })).addEvent ev_PLATFORM n.v 0 0))
+        (1 + n.bytes.length)) := by
+  obtain ⟨t1, ht1⟩ : ∃ t1, t1 = (getTrack s).setReference (some { line := s.inp.line, column := s.inp.lb.column }) := ⟨_, rfl⟩
+  have hs0 : Sane (setTrack s t1) := sane_setTrack _ _ hs
+  have hsuf0 : suffix (setTrack s t1) = 37 :: (n.bytes ++ tail) := by rw [suffix_setTrack]; exact hsuf
+  have hs1 : Sane (adv (setTrack s t1) 1) := sane_adv _ hs0 1 (by rw [hsuf0]; simp)
+  have hsuf1 : suffix (adv (setTrack s t1) 1) = n.bytes ++ tail := by rw [suffix_adv, hsuf0]; rfl
+  have h37 : schar 37 = 37 := by decide
+  have hun : ungetC 37 (adv s 1) = .ok () s := by
+    have := ungetC_same s hs.bytes 37 _ hsuf
+    rw [h37] at this; exact this
+  have hst : setTrack s (Track.setReference (getTrack s) (some s.inp.getReference)) = setTrack s t1 := by rw [ht1]; rfl
+  conv => lhs; unfold parseMmlTrackF
+  rw [bind_ok (getTokenC_cons s 37 _ hsuf (by omega)), bind_ok (getS_run _)]
+  have e1 : ((37 : Nat) : Int) = 37 := rfl
+  rw [e1]
+  simp only [show (((37 : Int) == 124)) = false by decide, show (((37 : Int) == 59)) = false by decide,
+    show ((37 : Int) == 47 || (37 : Int) == 125) = false by decide, show (((37 : Int) == 123)) = false by decide,
+    show (((37 : Int) == 37)) = true by decide, Bool.false_and, Bool.false_eq_true, if_false, if_true]
+  rw [bind_ok hun, bind_ok (getS_run _), bind_ok (trackOp_ok _ _ _ "" rfl), hst]
+  rw [bind_ok (getC_cons _ 37 _ hsuf0), bind_ok (expectParameter_render _ hs1 n tail hsuf1 hr hend)]
+  rw [bind_ok (trackOp_ok _ _ _ "" rfl)]
+  simp only [getTrack_adv, getTrack_setTrack, setTrack_adv, setTrack_setTrack, adv_adv, ht1]
 
 set_option hygiene false in
 /-- mandatory-number event command -/
@@ -669,6 +768,29 @@ theorem lcmd_step (f : Nat) (s : MmlState) (hs : Sane s) (cmd : Cmd) (tail : Lis
     case porta.some => ev_num 71 ev_PORTAMENTO
     case tempoBpm.some => ev_num 116 ev_TEMPO_BPM
     case tempo.some => ev_num 84 ev_TEMPO
+    case transpose.some =>
+      have h := lstep_envelope f s hs 95 _ (by simpa [Cmd.bytes, Simple.spellingBytes, MmlMeaning.optNumBytes] using hsuf) (by omega)
+        (fun t => t.addEvent ev_TRANSPOSE n.v 0 0) (1 + n.bytes.length) (fun s0 hs0 hsuf0 => transpose_span s0 hs0 95 (Or.inl rfl) n tail hsuf0 hn ht)
+      rw [h]
+      simp only [Cmd.bytes, Simple.spellingBytes, MmlMeaning.optNumBytes, lcmdSkip, List.length_append, List.length_cons, List.length_nil, Nat.add_zero, Nat.zero_add]
+      rfl
+    case kTranspose.some =>
+      have h := lstep_envelope f s hs 107 _ (by simpa [Cmd.bytes, Simple.spellingBytes, MmlMeaning.optNumBytes] using hsuf) (by omega)
+        (fun t => t.addEvent ev_TRANSPOSE n.v 0 0) (1 + n.bytes.length) (fun s0 hs0 hsuf0 => transpose_span s0 hs0 107 (Or.inr rfl) n tail hsuf0 hn ht)
+      rw [h]
+      simp only [Cmd.bytes, Simple.spellingBytes, MmlMeaning.optNumBytes, lcmdSkip, List.length_append, List.length_cons, List.length_nil, Nat.add_zero, Nat.zero_add]
+      rfl
+    case transposeRel.some =>
+      have h := lstep_envelope f s hs 95 _ (by simpa [Cmd.bytes, Simple.spellingBytes, MmlMeaning.optNumBytes] using hsuf) (by omega)
+        (fun t => t.addEvent ev_TRANSPOSE_REL n.v 0 0) (2 + n.bytes.length) (fun s0 hs0 hsuf0 => transposeRel_span s0 hs0 n tail hsuf0 hn ht)
+      rw [h]
+      simp only [Cmd.bytes, Simple.spellingBytes, MmlMeaning.optNumBytes, lcmdSkip, List.length_append, List.length_cons, List.length_nil, Nat.add_zero, Nat.zero_add]
+      rfl
+    case platform.some =>
+      have h := platform_step f s hs n tail (by simpa [Cmd.bytes, Simple.spellingBytes, MmlMeaning.optNumBytes] using hsuf) hn ht
+      rw [h]
+      simp only [Cmd.bytes, Simple.spellingBytes, MmlMeaning.optNumBytes, lcmdSkip, List.length_append, List.length_cons, List.length_nil, Nat.add_zero, Nat.zero_add]
+      rfl
   · have h := lstep_envelope f s hs 68 _ (by simpa [Cmd.bytes] using hsuf) (by omega) (fun t => t.setDrumMode (u16 n.v)) (1 + n.bytes.length)
       (fun s0 hs0 hsuf0 => drum_span s0 hs0 n tail hsuf0 hn ht)
     rw [h]
